@@ -278,7 +278,15 @@ func (c *client) SendBatch(ctx context.Context, batch []hrpc.Call) (
 	backoff := backoffStart
 
 	for {
-		rpcByClient, ok := c.findClients(ctx, batch, res)
+		// findClients reports errors by position in batch, which is
+		// not the position in res when batch holds the RPCs to retry
+		lookupRes := make([]hrpc.RPCResult, len(batch))
+		rpcByClient, ok := c.findClients(ctx, batch, lookupRes)
+		for i, rpc := range batch {
+			if err := lookupRes[i].Error; err != nil {
+				res[rpcToRes[rpc]] = hrpc.RPCResult{Error: err}
+			}
+		}
 		if !ok {
 			return res, false
 		}
